@@ -3,7 +3,9 @@ package main
 import (
 	"fmt"
 	"go/ast"
+	"go/token"
 	"go/types"
+	"sort"
 	"strings"
 )
 
@@ -36,6 +38,8 @@ func runC16(c *Ctx) {
 	c.Rule("R16.4", "E3", "atomic replace of the token file; append-only add; no other writer", 6)
 	c.Rule("R16.5", "E2", "API handlers hand the tested tag to the token store", 2)
 	c.Rule("R16.6", "E2", "the store's in-memory tokens are never edited in place by callers", 3)
+	c.Rule("R16.7", "E3", "the version tag is derived from the mirrored size and time alone (or everything else it reads is reset with them)", 1)
+	defer runC16Tag(c)
 
 	// ---- R16.1 ----
 	la := NewLockAnalysis(p)
@@ -358,4 +362,135 @@ func runC16(c *Ctx) {
 	if nget < 3 {
 		c.Bad("R16.6", "token.Get sites", 0, "only %d callers of token.Get found", nget)
 	}
+}
+
+// R16.7: Update/Delete compare the caller's tag with state.etag().  That
+// comparison tells versions apart only if etag() is a function of the version
+// the state mirrors (fileSize, modTime).  Anything else etag() reads or writes
+// (a cached tag) must be stored again on every path after each store to
+// fileSize or modTime, in whatever function that store sits.
+func runC16Tag(c *Ctx) {
+	p := c.P
+	et := p.Func("token", "state", "etag")
+	fSize, fTime := p.Field("token", "state", "fileSize"), p.Field("token", "state", "modTime")
+	if et == nil || fSize == nil || fTime == nil {
+		c.Unknown("R16.7", "anchors", 0, "state.etag / fileSize / modTime not found")
+		return
+	}
+	info := et.Pkg.TypesInfo
+	version := map[types.Object]bool{fSize: true, fTime: true}
+	readsV := map[types.Object]bool{}
+	other := map[types.Object]bool{} // fields of state and package-level variables etag() touches besides the version
+	ast.Inspect(et.Body(), func(n ast.Node) bool {
+		switch x := n.(type) {
+		case *ast.SelectorExpr:
+			if sel := info.Selections[x]; sel != nil && sel.Kind() == types.FieldVal {
+				if fv, ok := sel.Obj().(*types.Var); ok {
+					o := types.Object(fv.Origin())
+					if version[o] {
+						readsV[o] = true
+					} else if named, ok := derefType(sel.Recv()).(*types.Named); ok && named.Obj().Name() == "state" && named.Obj().Pkg() == et.Pkg.Types {
+						other[o] = true
+					}
+				}
+			}
+		case *ast.Ident:
+			if v, ok := info.Uses[x].(*types.Var); ok && !v.IsField() && v.Parent() == et.Pkg.Types.Scope() {
+				other[v] = true
+			}
+		}
+		return true
+	})
+	if len(readsV) != 2 {
+		c.Bad("R16.7", "etag() derives the tag from fileSize and modTime", et.Pos(), "etag() does not read both the mirrored size and the mirrored modification time: successive versions are not told apart")
+		return
+	}
+	if len(other) == 0 {
+		c.OK("R16.7", "etag() derives the tag from fileSize and modTime", et.Pos(), "reads nothing else, stores nothing")
+		return
+	}
+	// every store to a version field is followed, on every path, by a store to each other input
+	isStoreTo := func(fs *FuncSrc, n ast.Node, objs map[types.Object]bool) types.Object {
+		var hit types.Object
+		ast.Inspect(n, func(m ast.Node) bool {
+			if _, isLit := m.(*ast.FuncLit); isLit {
+				return false
+			}
+			var lhs []ast.Expr
+			switch x := m.(type) {
+			case *ast.AssignStmt:
+				lhs = x.Lhs
+			case *ast.IncDecStmt:
+				lhs = []ast.Expr{x.X}
+			}
+			for _, l := range lhs {
+				switch y := unparen(l).(type) {
+				case *ast.SelectorExpr:
+					if sel := fs.Pkg.TypesInfo.Selections[y]; sel != nil {
+						if fv, ok := sel.Obj().(*types.Var); ok && objs[fv.Origin()] {
+							hit = fv.Origin()
+						}
+					}
+				case *ast.Ident:
+					if o := fs.Pkg.TypesInfo.ObjectOf(y); o != nil && objs[o] {
+						hit = o
+					}
+				}
+			}
+			return true
+		})
+		return hit
+	}
+	ok := true
+	var where token.Pos
+	what := ""
+	n := 0
+	for _, fs := range p.Sources() {
+		if fs.Pkg != et.Pkg || fs == et {
+			continue
+		}
+		ff := p.Facts().Analyze(fs)
+		var stores []ast.Node
+		ast.Inspect(fs.Body(), func(m ast.Node) bool {
+			if fl, isLit := m.(*ast.FuncLit); isLit && m != ast.Node(fs.Lit) && fl != nil {
+				return false
+			}
+			if as, isAs := m.(*ast.AssignStmt); isAs && isStoreTo(fs, as, version) != nil {
+				stores = append(stores, as)
+			}
+			return true
+		})
+		for _, st := range stores {
+			n++
+			for o := range other {
+				one := map[types.Object]bool{o: true}
+				if isStoreTo(fs, st, one) != nil {
+					continue
+				}
+				if _, found := ff.PathSearch(st, 0, func(nd ast.Node, _ *State, flag int) (int, bool) {
+					return flag, isStoreTo(fs, nd, one) != nil
+				}, nil, func(int) bool { return true }); found {
+					ok, where, what = false, st.Pos(), o.Name()
+				}
+			}
+		}
+	}
+	var names []string
+	for o := range other {
+		names = append(names, o.Name())
+	}
+	sort.Strings(names)
+	pos := et.Pos()
+	if where.IsValid() {
+		pos = where
+	}
+	c.Check(ok && n > 0, "R16.7", "etag() derives the tag from fileSize and modTime", pos, fmt.Sprintf("etag() also uses %v; each of the %d stores to the version is followed by a store to them on every path", names, n),
+		fmt.Sprintf("etag() also depends on %s, which is not stored again after this change of the mirrored version: the tag compared by Update/Delete can be the tag of an older version, so a stale editor is not refused", what))
+}
+
+func derefType(t types.Type) types.Type {
+	if pt, ok := t.(*types.Pointer); ok {
+		return pt.Elem()
+	}
+	return t
 }
